@@ -766,3 +766,79 @@ Proof.
            subst s2. rewrite tn_taint_t03f in T.
            match goal with Eh : handle_closed (f_h x) s = true |- _ => rewrite Eh in T end. discriminate.
 Qed.
+
+(** * C04: the disconnect protocol *)
+Lemma no_open_tx s :
+  Inv s -> t07 (tn s) = false -> sc s = 0 ->
+  forall h x, getH h s = Some x -> h_live x = true -> h_tx x = true -> h_closed x = true.
+Proof.
+  intros [_ [HW HK]] T Hsc h x Hg Hl Htx. destruct (k_cnt s HK T) as [A _].
+  assert (Hz : cnt open_tx (hs s) = 0%nat) by (rewrite Hsc in A; lia).
+  pose proof (proj1 (cnt_zero open_tx (hs s)) Hz h x (aget_In h x (hs s) Hg)) as Ho.
+  unfold open_tx in Ho. rewrite Hl, Htx in Ho. destruct (h_closed x); [reflexivity | discriminate].
+Qed.
+
+Lemma no_open_rx s :
+  Inv s -> t07 (tn s) = false -> rc s = 0 ->
+  forall h x, getH h s = Some x -> h_live x = true -> h_tx x = false -> h_closed x = true.
+Proof.
+  intros [_ [HW HK]] T Hrc h x Hg Hl Htx. destruct (k_cnt s HK T) as [_ A].
+  assert (Hz : cnt open_rx (hs s) = 0%nat) by (rewrite Hrc in A; lia).
+  pose proof (proj1 (cnt_zero open_rx (hs s)) Hz h x (aget_In h x (hs s) Hg)) as Ho.
+  unfold open_rx in Ho. rewrite Hl, Htx in Ho. destruct (h_closed x); [reflexivity | discriminate].
+Qed.
+
+(* while another handle of the side is open the count is not 0 (closing/dropping a clone disconnects nothing) *)
+Lemma open_tx_alive s h x :
+  Inv s -> t07 (tn s) = false -> getH h s = Some x -> h_live x = true -> h_tx x = true -> h_closed x = false ->
+  sc s <> 0.
+Proof.
+  intros H T Hg Hl Htx Hc E. pose proof (no_open_tx s H T E h x Hg Hl Htx). congruence.
+Qed.
+
+Lemma open_rx_alive s h x :
+  Inv s -> t07 (tn s) = false -> getH h s = Some x -> h_live x = true -> h_tx x = false -> h_closed x = false ->
+  rc s <> 0.
+Proof.
+  intros H T Hg Hl Htx Hc E. pose proof (no_open_rx s H T E h x Hg Hl Htx). congruence.
+Qed.
+
+(* Disconnected, once true (no sender, buffer drained), stays true and nothing is received any more —
+   unless one of the recorded events F-07 / F-33 / F-03f occurs *)
+Theorem disc_final s o :
+  Inv s -> sc s = 0 -> q s = [] ->
+  let s' := fst (step s o) in
+  t07 (tn s') = false -> t33 (tn s') = false -> t03f (tn s') = false ->
+  sc s' = 0 /\ q s' = [] /\ recvd s' = recvd s.
+Proof.
+  intros H Hsc Hq. cbv zeta. intros T7 T33 T3f.
+  destruct (cfg_step s o) as (_ & _ & TL). destruct TL as (_ & _ & _ & L7 & _ & _ & _).
+  specialize (L7 T7).
+  destruct (pushing o) eqn:Hp.
+  2:{ destruct (np_step s o Hp) as (A & B & C). split; [lia|].
+      destruct B as [E|[v [E _]]]; [|rewrite Hq in E; discriminate].
+      split; [congruence | apply C; exact E]. }
+  destruct o; try discriminate Hp.
+  - (* TrySend *)
+    destruct (send_push_try s h) as (A & B & C). split; [congruence|]. split; [|exact B].
+    destruct C as [E|[x (Hg & Hl & Htx & Hc & _)]]; [congruence|].
+    exfalso. apply (open_tx_alive s h x H L7 Hg Hl Htx Hc). exact Hsc.
+  - (* Send *)
+    destruct (send_push_block s h) as (A & B & C). split; [congruence|]. split; [|exact B].
+    destruct C as [E|[x (Hg & Hl & Htx & Hc & _)]]; [congruence|].
+    exfalso. apply (open_tx_alive s h x H L7 Hg Hl Htx Hc). exact Hsc.
+  - (* Clone *)
+    destruct (clone_structural s h h2) as (A & B & C). split; [|split; [congruence | exact B]].
+    destruct C as [E|[x (Hg & Hl & Htx & Hcl)]]; [congruence|].
+    pose proof (no_open_tx s H L7 Hsc h x Hg Hl Htx) as Hc. destruct (Hcl Hc) as [_ T]. congruence.
+  - (* Poll *)
+    destruct (poll_structural s f w) as (A & B). split; [lia|].
+    destruct B as [[E1 E2]|[[v [E _]]|[x [v (Hg & Hrv & Hl & _ & _ & Hcl)]]]].
+    + split; congruence.
+    + rewrite Hq in E. discriminate.
+    + exfalso. destruct H as [HD [HW HK]].
+      destruct (w_fh s HW f x Hg Hl) as [hh [Hh (Hlh & Htxh & _)]]. rewrite Hrv in Htxh. cbn in Htxh.
+      pose proof (no_open_tx s (conj HD (conj HW HK)) L7 Hsc (f_h x) hh Hh Hlh Htxh) as Hc.
+      assert (Ehc : handle_closed (f_h x) s = true) by (unfold handle_closed; rewrite Hh; exact Hc).
+      destruct (Hcl Ehc) as [_ T]. congruence.
+Qed.
